@@ -102,6 +102,7 @@ type QProfile struct {
 	PartStates   bool // pre-existing .part files (C02)
 	Corrupt      bool // single-field corruption of batch responses
 	RefNames     bool // give the queue a remote ref (C18)
+	Redirects    bool // API POSTs answered with 307/308 to the same endpoint (C18)
 	MaxObjs      int
 	MaxAdds      int
 	ShapeExclude map[string]bool
@@ -222,6 +223,9 @@ func GenQCfg(t *sim.Tape, p QProfile) QCfg {
 	f.ObjNoAction = pickRate(t, "objnoaction", 1, 6)
 	f.ObjExpired = pickRate(t, "objexpired", 1, 5)
 	f.ObjSoonExpire = pickRate(t, "objsoon", 1, 5)
+	if p.Redirects {
+		f.PostRedirect = pickRate(t, "postredirect", 1, 4)
+	}
 	if p.ShapeFaults {
 		f.ObjOmit = pickRate(t, "objomit", 1, 4)
 		f.ObjTwice = pickRate(t, "objtwice", 1, 4)
